@@ -151,7 +151,7 @@ type c20Pair struct {
 }
 
 func c20Pairs() []c20Pair {
-	num := []Row{{"k": "a", "v": 1}, {"k": "a", "v": 2}, {"k": "b", "v": 3}}
+	num := []Row{{"k": "a", "v": 1, "ts": 1}, {"k": "a", "v": 2, "ts": 2}, {"k": "b", "v": 3, "ts": 3}}
 	mixed := []Row{{"k": "a", "v": 2}, {"k": "a", "v": "2"}, {"k": "a", "v": 2.5}}
 	strs := []Row{{"k": "a", "v": "x"}, {"k": "b", "v": "y"}, {"k": "a", "v": nil}}
 	return []c20Pair{
@@ -163,6 +163,12 @@ func c20Pairs() []c20Pair {
 		{"percentile-params", c20Inst{"SELECT percentile(v, 0) AS p FROM stream GROUP BY CountingWindow(2)", num}, c20Inst{"SELECT percentile(v, 1) AS p FROM stream GROUP BY CountingWindow(2)", num}},
 		{"like-vs-like", c20Inst{"SELECT v FROM stream WHERE v LIKE 'x%'", strs}, c20Inst{"SELECT v FROM stream WHERE v LIKE '%y'", strs}},
 		{"literal-differs-only-in-letter-case", c20Inst{"SELECT concat(k, '-ok') AS r, upper(k) AS u FROM stream", strs}, c20Inst{"SELECT concat(k, '-OK') AS r, UPPER(k) AS u FROM stream", strs}},
+		// MATCH_RECOGNIZE evaluates DEFINE/MEASURES through a process-wide sync.Pool of scratch maps
+		{"cep-vs-cep", c20Inst{"SELECT * FROM stream MATCH_RECOGNIZE (PARTITION BY k ORDER BY ts MEASURES FIRST(v) AS f, LAST(v) AS l ONE ROW PER MATCH PATTERN (A B) DEFINE A AS v >= 1, B AS v > PREV(v))", num},
+			c20Inst{"SELECT * FROM stream MATCH_RECOGNIZE (ORDER BY ts MEASURES LAST(k) AS lk, COUNT(A.v) AS c ONE ROW PER MATCH PATTERN (A+ B) DEFINE A AS v < 3, B AS v >= 3)", num}},
+		{"global-window-vs-session", c20Inst{"SELECT k, sum(v) AS s FROM stream GROUP BY k, GLOBAL WINDOW TRIGGER WHEN sum(v) >= 3", num},
+			c20Inst{"SELECT k, max(v) AS s FROM stream GROUP BY k, GLOBAL WINDOW TRIGGER WHEN max(v) >= 2", num}},
+		{"group-key-expr", c20Inst{"SELECT upper(k) AS uk, count(*) AS c FROM stream GROUP BY upper(k), CountingWindow(2)", num}, c20Inst{"SELECT concat(k, 'x') AS uk, count(*) AS c FROM stream GROUP BY k, CountingWindow(2)", num}},
 		{"case-vs-concat", c20Inst{"SELECT CASE WHEN v > 1 THEN 'hi' ELSE 'lo' END AS r FROM stream", num}, c20Inst{"SELECT k + '_' + k AS r FROM stream", strs}},
 	}
 }
@@ -303,7 +309,7 @@ func (c20) Run(u fw.Unit) fw.Result {
 func (c20) Describe(tier string) fw.Description {
 	return fw.Description{
 		Level: "model_checking",
-		Rule: "(a) immutability: 15 query kinds (projection, *, SELECT-analytic, WHERE-analytic with and without OVER, OVER, changed_cols, JOIN, function-expression group key, counting, tumbling, session, global window, MATCH_RECOGNIZE, CASE) x {Emit, EmitSync} x rows with nested maps and slices: a deep snapshot of every caller map before the call must equal it after quiescence, and every batch handed to a sink must still read the same at the end; (b) independence: 9 instance pairs (same SQL; nth_value(v,1) vs (v,2); percentile(v,0) vs (v,1); the same expression text over differently typed rows; analytic; LIKE; CASE vs string concatenation) x all input sequences of length 1..L per instance x ALL interleavings of the two inputs at operation granularity in one process, compared with each instance alone after VerifResetGlobals(); non-trivial = some output exists",
+		Rule: "(a) immutability: 15 query kinds (projection, *, SELECT-analytic, WHERE-analytic with and without OVER, OVER, changed_cols, JOIN, function-expression group key, counting, tumbling, session, global window, MATCH_RECOGNIZE, CASE) x {Emit, EmitSync} x rows with nested maps and slices: a deep snapshot of every caller map before the call must equal it after quiescence, and every batch handed to a sink must still read the same at the end; (b) independence: 12 instance pairs (same SQL; nth_value(v,1) vs (v,2); percentile(v,0) vs (v,1); the same expression text over differently typed rows; analytic; LIKE; CASE vs string concatenation) x all input sequences of length 1..L per instance x ALL interleavings of the two inputs at operation granularity in one process, compared with each instance alone after VerifResetGlobals(); non-trivial = some output exists",
 		Bounds:      map[string]any{"max_len_per_instance": map[string]int{"quick": 2, "thorough": 3}},
 		Assumptions: []string{"interleaving at Emit granularity under the eager deterministic schedule; finer interleavings of two instances' goroutines are not explored (they share only the function registry and the expression caches, whose internal synchronisation is in the quiet packages)"},
 	}
